@@ -266,6 +266,24 @@ def run_graph(pid, tier):
             if outcome_sig(clean) != outcome_sig(dirty):
                 res.violation("the result of pyxis::build depends on what an earlier build left in the output directory",
                               payload(case, clean, {"clean": clean.get("files"), "after_other_build": dirty.get("files")}))
+        # ... nor on how the input directory is spelled or which entry point is used (pyxis::build with an absolute path,
+        # `./input`, `input/`, or pyxis::build_script reading ./types with the pointer width from the cargo environment)
+        by_set = collections.defaultdict(list)
+        for case, clean in pl3.pairs():
+            inp = {k: v for k, v in case["input"].items() if k != "indir"}
+            inp["mods"] = sorted(inp["mods"], key=lambda m: m["path"])
+            by_set[sha(json.dumps(inp, sort_keys=True))].append((case, clean))
+        for lst in by_set.values():
+            sigs = {outcome_sig(o) for _, o in lst}
+            n_checked += len(lst)
+            if len(sigs) > 1:
+                a = lst[0]
+                b = next(x for x in lst if outcome_sig(x[1]) != outcome_sig(a[1]))
+                res.violation(f"the same files and pointer width give different results through input directory style "
+                              f"`{a[0]['input']['indir']}` and `{b[0]['input']['indir']}`",
+                              payload(a[0], a[1], {"style_a": a[0]["input"]["indir"], "files_a": a[1].get("files") and [(f["rel"], f["hash"]) for f in a[1]["files"]],
+                                                   "style_b": b[0]["input"]["indir"], "outcome_b": b[1].get("outcome"),
+                                                   "files_b": b[1].get("files") and [(f["rel"], f["hash"]) for f in b[1]["files"]]}))
         cov["inputs_files_dirty_outdir"] = pl3.total
     # ---- direction B: random graphs beyond the exhaustive bounds, natural hash order, TLC as oracle
     n_rand = rand_graphs(pid, tier, pl, res, cov)
